@@ -1,0 +1,668 @@
+//! Verification hooks (only compiled with `--cfg wilfred_garden_verif`).
+//!
+//! `garden verif-batch` reads one JSON request per line on stdin and
+//! writes one JSON response per line on stdout. Each request runs
+//! under `catch_unwind`, so a panic is reported as a response rather
+//! than killing the batch.
+
+use std::io::BufRead as _;
+use std::path::PathBuf;
+use std::rc::Rc;
+
+use serde_json::{json, Value as J};
+
+use crate::garden_type::{is_subtype, Type, TypeDefKind};
+use crate::parser::ast::*;
+use crate::parser::lex::lex;
+use crate::parser::position::Position;
+use crate::parser::vfs::Vfs;
+use crate::parser::{parse_toplevel_items, ParseError};
+
+fn pos_json(p: &Position) -> J {
+    json!([
+        p.start_offset,
+        p.end_offset,
+        p.line_number,
+        p.end_line_number,
+        p.column,
+        p.end_column
+    ])
+}
+
+fn err_json(e: &ParseError) -> J {
+    match e {
+        ParseError::Invalid {
+            position, message, ..
+        } => json!({"kind": "invalid", "pos": pos_json(position), "message": message.as_string()}),
+        ParseError::Incomplete {
+            position, message, ..
+        } => {
+            json!({"kind": "incomplete", "pos": pos_json(position), "message": message.as_string()})
+        }
+    }
+}
+
+fn op_lex(req: &J) -> J {
+    let src = req["src"].as_str().unwrap_or("");
+    let (_vfs, vfs_path) = Vfs::singleton(PathBuf::from("/verif.gdn"), src.to_owned());
+    let (mut tokens, errors) = lex(&vfs_path, src);
+    let mut toks = vec![];
+    while let Some(t) = tokens.pop() {
+        let comments: Vec<J> = t
+            .preceding_comments
+            .iter()
+            .map(|(p, s)| json!({"pos": pos_json(p), "text": s}))
+            .collect();
+        toks.push(json!({"text": t.text, "pos": pos_json(&t.position), "comments": comments}));
+    }
+    let trailing: Vec<J> = tokens
+        .trailing_comments
+        .iter()
+        .map(|(p, s)| json!({"pos": pos_json(p), "text": s}))
+        .collect();
+    let errs: Vec<J> = errors.iter().map(err_json).collect();
+    json!({"tokens": toks, "trailing_comments": trailing, "errors": errs})
+}
+
+struct Sexp {
+    out: String,
+    positions: bool,
+}
+
+fn quote(s: &str) -> String {
+    let mut r = String::from("\"");
+    for c in s.chars() {
+        match c {
+            '"' => r.push_str("\\\""),
+            '\\' => r.push_str("\\\\"),
+            '\n' => r.push_str("\\n"),
+            c => r.push(c),
+        }
+    }
+    r.push('"');
+    r
+}
+
+impl Sexp {
+    fn pos(&mut self, p: &Position) {
+        if self.positions {
+            self.out.push_str(&format!(
+                "@{}:{}:{}:{}:{}:{} ",
+                p.start_offset, p.end_offset, p.line_number, p.end_line_number, p.column, p.end_column
+            ));
+        }
+    }
+
+    fn sym(&mut self, s: &Symbol) {
+        self.pos(&s.position);
+        self.out.push_str(&format!("(sym {})", s.name.text));
+    }
+
+    fn hint(&mut self, h: &TypeHint) {
+        self.out.push('(');
+        self.pos(&h.position);
+        self.out.push_str("hint ");
+        self.out.push_str(&h.sym.name.text);
+        for a in &h.args {
+            self.out.push(' ');
+            self.hint(a);
+        }
+        self.out.push(')');
+    }
+
+    fn opt_hint(&mut self, h: &Option<TypeHint>) {
+        match h {
+            Some(h) => self.hint(h),
+            None => self.out.push_str("(nohint)"),
+        }
+    }
+
+    fn dest(&mut self, d: &LetDestination) {
+        match d {
+            LetDestination::Symbol(s) => self.sym(s),
+            LetDestination::Destructure(syms) => {
+                self.out.push_str("(destructure");
+                for s in syms {
+                    self.out.push(' ');
+                    self.sym(s);
+                }
+                self.out.push(')');
+            }
+        }
+    }
+
+    fn block(&mut self, b: &Block) {
+        self.out.push_str("(block");
+        for e in &b.exprs {
+            self.out.push(' ');
+            self.expr(e);
+        }
+        self.out.push(')');
+    }
+
+    fn args(&mut self, a: &ParenthesizedArguments) {
+        self.out.push_str("(args");
+        for e in &a.arguments {
+            self.out.push(' ');
+            self.expr(&e.expr);
+        }
+        self.out.push(')');
+    }
+
+    fn fun_info(&mut self, f: &FunInfo) {
+        self.out.push_str("(funinfo ");
+        match &f.name_sym {
+            Some(s) => self.sym(s),
+            None => self.out.push_str("(anon)"),
+        }
+        if let Some(d) = &f.doc_comment {
+            self.out.push_str(&format!(" (doc {})", quote(d)));
+        }
+        self.out.push_str(" (tparams");
+        for t in &f.type_params {
+            self.out.push(' ');
+            self.out.push_str(&t.name.text);
+        }
+        self.out.push_str(") (params");
+        for p in &f.params.params {
+            self.out.push_str(" (p ");
+            self.sym(&p.symbol);
+            self.out.push(' ');
+            self.opt_hint(&p.hint);
+            self.out.push(')');
+        }
+        self.out.push_str(") (ret ");
+        self.opt_hint(&f.return_hint);
+        self.out.push_str(") ");
+        self.block(&f.body);
+        self.out.push(')');
+    }
+
+    fn expr(&mut self, e: &Expression) {
+        self.out.push('(');
+        self.pos(&e.position);
+        match &e.expr_ {
+            Expression_::Match(scrutinee, cases) => {
+                self.out.push_str("match ");
+                self.expr(scrutinee);
+                for (pat, b) in cases {
+                    self.out.push_str(" (case ");
+                    self.sym(&pat.variant_sym);
+                    if let Some(d) = &pat.payload {
+                        self.out.push(' ');
+                        self.dest(d);
+                    }
+                    self.out.push(' ');
+                    self.block(b);
+                    self.out.push(')');
+                }
+            }
+            Expression_::If(c, t, e) => {
+                self.out.push_str("if ");
+                self.expr(c);
+                self.out.push(' ');
+                self.block(t);
+                if let Some(e) = e {
+                    self.out.push(' ');
+                    self.block(e);
+                }
+            }
+            Expression_::While(c, b) => {
+                self.out.push_str("while ");
+                self.expr(c);
+                self.out.push(' ');
+                self.block(b);
+            }
+            Expression_::ForIn(d, e, b) => {
+                self.out.push_str("for ");
+                self.dest(d);
+                self.out.push(' ');
+                self.expr(e);
+                self.out.push(' ');
+                self.block(b);
+            }
+            Expression_::Try(b, s, c) => {
+                self.out.push_str("try ");
+                self.block(b);
+                self.out.push(' ');
+                self.sym(s);
+                self.out.push(' ');
+                self.block(c);
+            }
+            Expression_::Break => self.out.push_str("break"),
+            Expression_::Continue => self.out.push_str("continue"),
+            Expression_::Assign(s, e) => {
+                self.out.push_str("assign ");
+                self.sym(s);
+                self.out.push(' ');
+                self.expr(e);
+            }
+            Expression_::AssignUpdate(s, k, e) => {
+                self.out.push_str("assignupdate ");
+                self.out.push_str(k.as_src());
+                self.out.push(' ');
+                self.sym(s);
+                self.out.push(' ');
+                self.expr(e);
+            }
+            Expression_::Let(d, h, e) => {
+                self.out.push_str("let ");
+                self.dest(d);
+                self.out.push(' ');
+                self.opt_hint(h);
+                self.out.push(' ');
+                self.expr(e);
+            }
+            Expression_::Return(e) => {
+                self.out.push_str("return");
+                if let Some(e) = e {
+                    self.out.push(' ');
+                    self.expr(e);
+                }
+            }
+            Expression_::IntLiteral(i) => self.out.push_str(&format!("int {i}")),
+            Expression_::FloatLiteral(f) => {
+                self.out.push_str(&format!("float {:016x}", f.0.to_bits()))
+            }
+            Expression_::StringLiteral(s) => self.out.push_str(&format!("str {}", quote(s))),
+            Expression_::ListLiteral(items) => {
+                self.out.push_str("list");
+                for i in items {
+                    self.out.push(' ');
+                    self.expr(&i.expr);
+                }
+            }
+            Expression_::DictLiteral(items) => {
+                self.out.push_str("dict");
+                for kv in items {
+                    self.out.push_str(" (kv ");
+                    self.expr(&kv.key);
+                    self.out.push(' ');
+                    self.expr(&kv.value);
+                    self.out.push(')');
+                }
+            }
+            Expression_::TupleLiteral(items) => {
+                self.out.push_str("tuple");
+                for i in items {
+                    self.out.push(' ');
+                    self.expr(i);
+                }
+            }
+            Expression_::StructLiteral(name, fields) => {
+                self.out.push_str(&format!("struct {}", name.name.text));
+                for (s, e) in fields {
+                    self.out.push_str(" (field ");
+                    self.sym(s);
+                    self.out.push(' ');
+                    self.expr(e);
+                    self.out.push(')');
+                }
+            }
+            Expression_::BinaryOperator(l, op, r) => {
+                let opname = format!("{:?}", op.kind);
+                self.out.push_str(&format!("bin {opname} "));
+                self.expr(l);
+                self.out.push(' ');
+                self.expr(r);
+            }
+            Expression_::Variable(s) => {
+                self.out.push_str(&format!("var {}", s.name.text));
+            }
+            Expression_::Call(f, a) => {
+                self.out.push_str("call ");
+                self.expr(f);
+                self.out.push(' ');
+                self.args(a);
+            }
+            Expression_::MethodCall(r, m, a) => {
+                self.out.push_str("methodcall ");
+                self.expr(r);
+                self.out.push(' ');
+                self.sym(m);
+                self.out.push(' ');
+                self.args(a);
+            }
+            Expression_::DotAccess(r, s) => {
+                self.out.push_str("dot ");
+                self.expr(r);
+                self.out.push(' ');
+                self.sym(s);
+            }
+            Expression_::NamespaceAccess(r, s) => {
+                self.out.push_str("ns ");
+                self.expr(r);
+                self.out.push(' ');
+                self.sym(s);
+            }
+            Expression_::FunLiteral(f) => {
+                self.out.push_str("funlit ");
+                self.fun_info(f);
+            }
+            Expression_::Assert(e) => {
+                self.out.push_str("assert ");
+                self.expr(e);
+            }
+            Expression_::Parentheses(p) => {
+                self.out.push_str("paren ");
+                self.expr(&p.expr);
+            }
+            Expression_::Invalid => self.out.push_str("invalid"),
+        }
+        if !e.value_is_used {
+            self.out.push_str(" #unused");
+        }
+        self.out.push(')');
+    }
+
+    fn vis(&mut self, v: &Visibility) {
+        match v {
+            Visibility::Public(_) => self.out.push_str("public "),
+            Visibility::CurrentFile => {}
+        }
+    }
+
+    fn item(&mut self, item: &ToplevelItem) {
+        match item {
+            ToplevelItem::Fun(_, f, v) => {
+                self.out.push_str("(fun ");
+                self.pos(&f.pos);
+                self.vis(v);
+                self.fun_info(f);
+                self.out.push(')');
+            }
+            ToplevelItem::Method(m, v) => {
+                self.out.push_str("(method ");
+                self.pos(&m.pos);
+                self.vis(v);
+                self.hint(&m.receiver_hint);
+                self.out.push(' ');
+                self.sym(&m.receiver_sym);
+                self.out.push(' ');
+                self.sym(&m.name_sym);
+                self.out.push(' ');
+                match &m.kind {
+                    MethodKind::BuiltinMethod(k, fi) => {
+                        self.out.push_str(&format!("(builtin {k:?})"));
+                        if let Some(fi) = fi {
+                            self.fun_info(fi);
+                        }
+                    }
+                    MethodKind::UserDefinedMethod(fi) => self.fun_info(fi),
+                }
+                self.out.push(')');
+            }
+            ToplevelItem::Test(t) => {
+                self.out.push_str("(test ");
+                self.pos(&t.pos);
+                self.sym(&t.name_sym);
+                if let Some(d) = &t.doc_comment {
+                    self.out.push_str(&format!(" (doc {})", quote(d)));
+                }
+                self.out.push(' ');
+                self.block(&t.body);
+                self.out.push(')');
+            }
+            ToplevelItem::Enum(e) => {
+                self.out.push_str("(enum ");
+                self.pos(&e.pos);
+                self.vis(&e.visibility);
+                self.out.push_str(&e.name_sym.name.text);
+                if let Some(d) = &e.doc_comment {
+                    self.out.push_str(&format!(" (doc {})", quote(d)));
+                }
+                self.out.push_str(" (tparams");
+                for t in &e.type_params {
+                    self.out.push(' ');
+                    self.out.push_str(&t.name.text);
+                }
+                self.out.push(')');
+                for v in &e.variants {
+                    self.out.push_str(" (variant ");
+                    self.sym(&v.name_sym);
+                    self.out.push(' ');
+                    self.opt_hint(&v.payload_hint);
+                    self.out.push(')');
+                }
+                self.out.push(')');
+            }
+            ToplevelItem::Struct(s) => {
+                self.out.push_str("(structdef ");
+                self.pos(&s.pos);
+                self.vis(&s.visibility);
+                self.out.push_str(&s.name_sym.name.text);
+                if let Some(d) = &s.doc_comment {
+                    self.out.push_str(&format!(" (doc {})", quote(d)));
+                }
+                self.out.push_str(" (tparams");
+                for t in &s.type_params {
+                    self.out.push(' ');
+                    self.out.push_str(&t.name.text);
+                }
+                self.out.push(')');
+                for f in &s.fields {
+                    self.out.push_str(" (fielddef ");
+                    self.sym(&f.sym);
+                    self.out.push(' ');
+                    self.hint(&f.hint);
+                    if let Some(d) = &f.doc_comment {
+                        self.out.push_str(&format!(" (doc {})", quote(d)));
+                    }
+                    self.out.push(')');
+                }
+                self.out.push(')');
+            }
+            ToplevelItem::Import(i) => {
+                self.out.push_str("(import ");
+                self.pos(&i.pos);
+                self.out.push_str(&quote(&i.path.display().to_string()));
+                if let Some(s) = &i.namespace_sym {
+                    self.out.push(' ');
+                    self.sym(s);
+                }
+                self.out.push(')');
+            }
+            ToplevelItem::Expr(e) => self.expr(&e.0),
+            ToplevelItem::Block(b) => self.block(b),
+        }
+    }
+}
+
+fn parse(src: &str) -> (Vec<ToplevelItem>, Vec<ParseError>) {
+    let mut id_gen = IdGenerator::default();
+    let (_vfs, vfs_path) = Vfs::singleton(PathBuf::from("/verif.gdn"), src.to_owned());
+    parse_toplevel_items(&vfs_path, src, &mut id_gen)
+}
+
+fn op_sexp(req: &J) -> J {
+    let src = req["src"].as_str().unwrap_or("");
+    let positions = req["positions"].as_bool().unwrap_or(false);
+    let (items, errors) = parse(src);
+    let mut sexps = vec![];
+    for item in &items {
+        let mut s = Sexp {
+            out: String::new(),
+            positions,
+        };
+        s.item(item);
+        sexps.push(s.out);
+    }
+    let errs: Vec<J> = errors.iter().map(err_json).collect();
+    json!({"items": sexps, "errors": errs})
+}
+
+/// Do the two sources parse to equal syntax trees (the AST's own
+/// `PartialEq`, which ignores positions and ids)?
+fn op_asteq(req: &J) -> J {
+    let a = req["a"].as_str().unwrap_or("");
+    let b = req["b"].as_str().unwrap_or("");
+    let (items_a, errs_a) = parse(a);
+    let (items_b, errs_b) = parse(b);
+    json!({"equal": items_a == items_b, "errors_a": errs_a.len(), "errors_b": errs_b.len()})
+}
+
+fn type_of_json(j: &J) -> Type {
+    if let Some(s) = j.as_str() {
+        if s == "Any" {
+            return Type::Any;
+        }
+    }
+    if let Some(items) = j.get("tuple") {
+        return Type::Tuple(items.as_array().unwrap().iter().map(type_of_json).collect());
+    }
+    if let Some(f) = j.get("fun") {
+        return Type::Fun {
+            name_sym: None,
+            type_params: vec![],
+            params: f["params"]
+                .as_array()
+                .unwrap()
+                .iter()
+                .map(type_of_json)
+                .collect(),
+            return_: Box::new(type_of_json(&f["ret"])),
+        };
+    }
+    if let Some(u) = j.get("user") {
+        let kind = if u["kind"].as_str() == Some("enum") {
+            TypeDefKind::Enum
+        } else {
+            TypeDefKind::Struct
+        };
+        return Type::UserDefined {
+            kind,
+            name: TypeName {
+                text: u["name"].as_str().unwrap().to_owned(),
+            },
+            args: u["args"]
+                .as_array()
+                .unwrap()
+                .iter()
+                .map(type_of_json)
+                .collect(),
+        };
+    }
+    if let Some(p) = j.get("param") {
+        return Type::TypeParameter(TypeName {
+            text: p.as_str().unwrap().to_owned(),
+        });
+    }
+    Type::error("verif")
+}
+
+fn json_of_type(t: &Type) -> J {
+    match t {
+        Type::Any => json!("Any"),
+        Type::Tuple(items) => json!({"tuple": items.iter().map(json_of_type).collect::<Vec<_>>()}),
+        Type::Fun {
+            params, return_, ..
+        } => {
+            json!({"fun": {"params": params.iter().map(json_of_type).collect::<Vec<_>>(), "ret": json_of_type(return_)}})
+        }
+        Type::UserDefined { kind, name, args } => {
+            let kind = match kind {
+                TypeDefKind::Enum => "enum",
+                TypeDefKind::Struct => "struct",
+            };
+            json!({"user": {"kind": kind, "name": name.text, "args": args.iter().map(json_of_type).collect::<Vec<_>>()}})
+        }
+        Type::TypeParameter(n) => json!({"param": n.text}),
+        Type::Error { .. } => json!({"error": null}),
+    }
+}
+
+fn op_subtype(req: &J) -> J {
+    let a = type_of_json(&req["a"]);
+    let b = type_of_json(&req["b"]);
+    json!({"result": is_subtype(&a, &b)})
+}
+
+fn op_unify(req: &J) -> J {
+    let a = type_of_json(&req["a"]);
+    let b = type_of_json(&req["b"]);
+    match crate::checks::type_checker::verif_unify(&a, &b) {
+        Some(t) => json!({"result": json_of_type(&t)}),
+        None => json!({"result": null}),
+    }
+}
+
+fn op_unify_all(req: &J) -> J {
+    let tys: Vec<Type> = req["tys"]
+        .as_array()
+        .unwrap()
+        .iter()
+        .map(type_of_json)
+        .collect();
+    match crate::checks::type_checker::verif_unify_all(&tys) {
+        Some(t) => json!({"result": json_of_type(&t)}),
+        None => json!({"result": null}),
+    }
+}
+
+fn op_lsp_pos(req: &J) -> J {
+    let src = req["src"].as_str().unwrap_or("");
+    let mut res = serde_json::Map::new();
+    if let Some(offset) = req["offset"].as_u64() {
+        let line = req["line"].as_u64().unwrap_or(0);
+        let (l, c) = crate::lsp::verif_offset_to_lsp_position(src, offset as usize, line as usize);
+        res.insert("position".to_owned(), json!([l, c]));
+    }
+    if let Some(lc) = req["line_char"].as_array() {
+        let o = crate::lsp::verif_line_char_to_offset(
+            src,
+            lc[0].as_u64().unwrap() as usize,
+            lc[1].as_u64().unwrap() as usize,
+        );
+        res.insert("offset".to_owned(), json!(o));
+    }
+    let (el, ec) = crate::lsp::verif_whole_document_range(src);
+    res.insert("whole_end".to_owned(), json!([el, ec]));
+    J::Object(res)
+}
+
+fn dispatch(req: &J) -> J {
+    match req["op"].as_str().unwrap_or("") {
+        "lex" => op_lex(req),
+        "sexp" => op_sexp(req),
+        "asteq" => op_asteq(req),
+        "subtype" => op_subtype(req),
+        "unify" => op_unify(req),
+        "unify_all" => op_unify_all(req),
+        "lsp_pos" => op_lsp_pos(req),
+        other => json!({"unsupported": other}),
+    }
+}
+
+/// Entry point for `garden verif-batch`.
+pub(crate) fn verif_batch() {
+    // Keep panic messages out of stderr noise but still available.
+    std::panic::set_hook(Box::new(|_| {}));
+    let stdin = std::io::stdin();
+    for line in stdin.lock().lines() {
+        let Ok(line) = line else { break };
+        if line.trim().is_empty() {
+            continue;
+        }
+        let resp = match serde_json::from_str::<J>(&line) {
+            Ok(req) => {
+                let r = std::panic::catch_unwind(std::panic::AssertUnwindSafe(|| dispatch(&req)));
+                match r {
+                    Ok(v) => v,
+                    Err(e) => {
+                        let msg = if let Some(s) = e.downcast_ref::<&str>() {
+                            (*s).to_owned()
+                        } else if let Some(s) = e.downcast_ref::<String>() {
+                            s.clone()
+                        } else {
+                            "unknown panic".to_owned()
+                        };
+                        json!({"panic": msg})
+                    }
+                }
+            }
+            Err(e) => json!({"bad_request": e.to_string()}),
+        };
+        println!("{}", serde_json::to_string(&resp).unwrap());
+    }
+    let _ = Rc::new(0);
+}
